@@ -217,6 +217,28 @@ func init() {
 					})
 				}
 			}
+			// numbers that do not fit a machine word are numbers all the same (semver sets no limit)
+			for _, bv := range []struct{ b, v, want string }{
+				{"1.2.3", "1.18446744073709551616.0", "reject-version"},
+				{"1.2.3", "1.18446744073709551615.0", "reject-version"},
+				{"1.2.3", "18446744073709551617.2.0", "reject-version"},
+				{"0.0.9", "18446744073709551616.0.0", "reject-version"},
+				{"0.0.9", "0.99999999999999999999999999.0", "reject-version"},
+				{"0.4.1", "4294967296.4.0", "reject-version"},
+				{"18446744073709551617.1.0", "18446744073709551617.0.5", "accept"},
+				{"18446744073709551617.1.0", "18446744073709551617.2.0", "reject-version"},
+				{"18446744073709551617.1.0", "1.1.0", "reject-version"},
+				{"1.18446744073709551617.0", "1.18446744073709551616.9", "accept"},
+				{"1.18446744073709551616.0", "1.18446744073709551617.0", "reject-version"},
+				{"0.18446744073709551616.3", "0.18446744073709551616.0", "accept"},
+				{"0.18446744073709551616.3", "0.0.0", "reject-version"},
+			} {
+				bv := bv
+				w.Case("huge-numbers/B="+bv.b+"/V="+bv.v, func(c *C) {
+					eval(c, bv.b, c18cfg(&bv.v, nil), bv.want, "huge-number:"+bv.want)
+					c.Distinct("nontrivial", bv.b+"|"+bv.v)
+				})
+			}
 			// non-semver builds: gate skipped
 			for _, b := range []string{"devel", "dev-main", "", "(devel)", "v1.2.3", "1.2.3.4", "01.2.3"} {
 				for _, v := range []string{"0.0.0", "1.2.3", "3.3.7-rc.1", "9.9.9"} {
